@@ -897,6 +897,16 @@ def apply_over_axes(func, a, axes):
         return res
 
 
+def _values_in_units(values, units):
+    # quantities found in values (possibly a nested list/tuple) are expressed in
+    # units and stripped; plain numbers are taken to be in units already
+    if hasattr(values, "units"):
+        return values.to_value(units)
+    if isinstance(values, (list, tuple)):
+        return type(values)(_values_in_units(v, units) for v in values)
+    return values
+
+
 def diff_helper(func, arr, *args, **kwargs):
     u = getattr(arr, "units", NULL_UNIT)
     if u.dimensions == temperature:
@@ -946,6 +956,10 @@ if NUMPY_VERSION >= Version("2.1.0.dev0"):
 
 @implements(np.pad)
 def pad(array, *args, **kwargs):
+    # padding values become elements of the result: same units as array
+    for key in ("constant_values", "end_values"):
+        if key in kwargs:
+            kwargs[key] = _values_in_units(kwargs[key], array.units)
     return np.pad._implementation(np.asarray(array), *args, **kwargs) * array.units
 
 
